@@ -24,8 +24,20 @@ Definition add_clause_term (dynamic : bool) (acc : list proc * Z) (t : term) : l
                    end) cs (db, id)
   end.
 
+(** the reader gives every clause its own variables: clause number i of a text
+    (whose variables are numbered from 0) is shifted to a block of its own *)
+Fixpoint shift_vars (k : Z) (t : term) : term :=
+  match t with
+  | Var v => Var (v + k)
+  | Cmp f args => Cmp f (map (shift_vars k) args)
+  | _ => t
+  end.
+Definition CLAUSE_BASE : Z := 2000000.
+Definition rename_apart (ts : list term) : list term :=
+  map (fun it => shift_vars (CLAUSE_BASE + 1000 * Z.of_nat (fst it)) (snd it)) (combine (seq 0 (List.length ts)) ts).
+
 Definition consult_terms (dynamic : bool) (db : list proc) (id : Z) (ts : list term) : list proc * Z :=
-  fold_left (add_clause_term dynamic) ts (db, id).
+  fold_left (add_clause_term dynamic) (rename_apart ts) (db, id).
 
 Definition bootstrap_db : list proc := Eval vm_compute in fst (consult_terms false [] 1000 bootstrap_clauses).
 
